@@ -1210,27 +1210,8 @@ class Compiler:
                 "except: NAME = None",
                 KEY=ast.Constant(name), NAME=store(name))
 
-        exc = template(
-            "exc_info()[1]", exc_info=Symbol(sys.exc_info), mode="eval"
-        )
-
-        exc_handler = template(
-            "if pos is not None: rcontext.setdefault('__error__', [])."
-            "append(token + (__filename, exc, ))",
-            exc=exc,
-            token=template("__tokens[pos]", pos="__token", mode="eval"),
-            pos="__token"
-        ) + template("raise")
-
         # Wrap visited nodes in try-except error handler.
-        body += [
-            ast.Try(
-                body=nodes,
-                handlers=[ast.ExceptHandler(body=exc_handler)],
-                finalbody=[],
-                orelse=[],
-            )
-        ]
+        body += self._record_error_site(nodes)
 
         function_name = "render" if node.name is None else \
                         "render_%s" % mangle(node.name)
@@ -1255,6 +1236,31 @@ class Compiler:
         )
 
         yield function
+
+    def _record_error_site(self, nodes):
+        """Wrap statements such that an exception passing through records
+        the expression being evaluated (``__token``) on its way out."""
+
+        exc = template(
+            "exc_info()[1]", exc_info=Symbol(sys.exc_info), mode="eval"
+        )
+
+        exc_handler = template(
+            "if pos is not None: rcontext.setdefault('__error__', [])."
+            "append(token + (__filename, exc, ))",
+            exc=exc,
+            token=template("__tokens[pos]", pos="__token", mode="eval"),
+            pos="__token"
+        ) + template("raise")
+
+        return [
+            ast.Try(
+                body=nodes,
+                handlers=[ast.ExceptHandler(body=exc_handler)],
+                finalbody=[],
+                orelse=[],
+            )
+        ]
 
     def visit_Text(self, node):
         yield EmitText(node.value)
@@ -1702,7 +1708,7 @@ class Compiler:
 
         self._slots.add(name)
 
-        orelse = template(
+        orelse = template("__token = None") + template(
             "SLOT(__stream, econtext.copy(), rcontext)",
             SLOT=name)
         test = ast.Compare(
@@ -1763,7 +1769,12 @@ class Compiler:
 
             self._current_slot.append(slot.name)
 
-            body = self.visit_Context(slot)
+            # The slot content runs in a function of its own: it has to
+            # track and report the failing expression itself, or an
+            # error would be attributed to whatever the macro evaluated
+            # last.
+            body = template("__token = None") + self._record_error_site(
+                self.visit_Context(slot) or [ast.Pass()])
 
             assert self._current_slot.pop() == slot.name
 
